@@ -344,6 +344,12 @@ class MaskIdx:
     def as_mask(self):
         return self.mask
 
+    def abs_len(self):
+        vals = list(self.mask.v) if hasattr(self.mask, "v") else list(self.mask)
+        if all(isinstance(m, bool) for m in vals):
+            return sum(vals)
+        raise Undecided("number of positions selected by an undecided mask")
+
 
 class RowLabel:
     """the index label of row `i` of a table (whatever its value)"""
@@ -955,7 +961,9 @@ def load_subscript(it, obj, k):
                 obj.views.append((r, r.base[1]))
             return r
         if isinstance(k, (list, tuple)) and all(isinstance(i, int) and not isinstance(i, bool) for i in k):
-            return Vec([obj.v[i] for i in k])
+            r = Vec([obj.v[i] for i in k])
+            r.exact = obj.exact                              # literally these positions of literally these elements
+            return r
         raise Undecided(f"vector index {k!r}")
     if isinstance(obj, Row):
         if isinstance(k, (int, str, slice)):
@@ -2132,6 +2140,13 @@ def ext_call(it, dotted, args, kw):
         r = Vec([i for i, x in enumerate(args[0].v) if x])
         r.exact = True
         return r
+    if name == "np.count_nonzero" and len(args) == 1 and not kw and isinstance(args[0], Vec):
+        if all(isinstance(x, bool) for x in args[0].v):
+            # the number of rows a literal mask selects (exact table), or -- one slot per row class -- zero when no class is selected, else some positive count
+            if args[0].exact or not any(args[0].v):
+                return sum(1 for x in args[0].v if x)
+            return NRows(sum(1 for x in args[0].v if x))
+        raise Undecided("np.count_nonzero of an undecided mask")
     if name == "np.nonzero" and args and isinstance(args[0], Vec):
         return (MaskIdx(args[0]),)
     if name in ("np.isfinite", "math.isfinite"):
@@ -2282,6 +2297,8 @@ def ext_call(it, dotted, args, kw):
     if name in ("np.asarray", "np.array", "np.asfarray", "pd.Series", "np.atleast_1d"):
         a0 = args[0] if args else kw.get("data")
         fresh = name == "pd.Series" and "index" not in kw
+        if isinstance(a0, range):
+            a0 = list(a0)                                    # an array / Series of a literal range: the numbers themselves (like np.arange)
         if name == "pd.Series" and isinstance(a0, dict) and "index" not in kw:
             return LabelSeries(a0)
         if name == "pd.Series" and isinstance(a0, IndexVals) and "index" not in kw:
@@ -2322,6 +2339,10 @@ def ext_call(it, dotted, args, kw):
         if isinstance(a0, Opaque):
             return a0
         return Opaque(name)
+    if name == "np.hstack" and len(args) == 1 and not kw:
+        parts_h = list(it.iterate(args[0]))
+        if parts_h and all(isinstance(p_, Vec) and not getattr(p_, "ncols", None) for p_ in parts_h):
+            return ext_call(it, "np.concatenate", [parts_h], {})           # 1-D arrays side by side: their concatenation
     if name == "np.concatenate":
         out = []
         all_exact = True
